@@ -415,6 +415,8 @@ def gen_world(src, profile):
         d = [a["name"] for a in c["attrs"] if a.get("do_not_copy") == "decorator"]
         if d:
             c["opts"]["do_not_copy"] = d
+            if src.chance(1, 4):
+                c["dnc_as"] = "iterator"  # the names are handed over as a one-shot iterable
 
     # preparers
     if profile.get("preparers", True):
@@ -697,6 +699,8 @@ class World:
             cls = type(c["name"], tuple(bases), ns)
             if c["kind"] == "spec":
                 opts = dict(c.get("opts") or {})
+                if c.get("dnc_as") == "iterator" and isinstance(opts.get("do_not_copy"), list):
+                    opts["do_not_copy"] = iter(opts["do_not_copy"])  # documented type: Iterable[str]
                 eager = desc.get("eager", False) if c["name"] not in ("U", "N", "V") else True
                 cls = spec_class(bootstrap=eager, **opts)(cls)
             self.classes[c["name"]] = cls
